@@ -106,6 +106,11 @@ def heapOps : List (String × (Tables → HSt → RS (HSt × String))) := [
       let n ← next; let t ← tx; let ds ← listOf nat
       let (h, r) := buildTx st.heap t ds
       pure (setName st n r h, "")),
+  -- a transaction obtained by parsing bytes: every object in it is fresh (model: built from the parsed value)
+  ("h_parsetx", fun _ st => do
+      let n ← next; let t ← tx
+      let (h, r) := buildTx st.heap t []
+      pure (setName st n r h, "")),
   ("h_copytx", fun _ st => do
       let a ← next; let b ← next
       let ra ← liftE (lookupTx st a)
